@@ -497,6 +497,12 @@ def gen_plan(seed: int, run: int, tier: str) -> dict:
             plan["again"] = {"n_trials": rng.randint(1, 3), "via": rng.choice(["same", "copy_in_callback", "copy_in_callback", "copy_after"])}
         if n_jobs > 1:
             cfg["p_line"] = rng.choice([0.003, 0.01, 0.03])
+        if kind == "cached" and rng.random() < 0.5:
+            # heartbeats on; one heartbeat write fails (connection lost): that kills the
+            # background thread at most - the trial itself must still end well-formed
+            cfg["heartbeat_interval"] = rng.choice([1, 5])
+            if rng.random() < 0.7:
+                plan["hb_fail"] = {"nth": rng.choice([0, 0, 1, 2])}
     else:
         ntasks = common.weighted(rng, [(1, 5), (2, 5)])
         mode = "threads" if kind == "mem" or rng.random() < 0.5 else "procs"
@@ -920,6 +926,23 @@ def _run_optimize(plan: dict, sim: sched.Sim, ch: sched.Chooser, dep: deploy.Dep
     default_ret = {"k": "float", "v": 0.5} if n_obj == 1 else {"k": "list", "items": [{"k": "float", "v": 0.5}] * n_obj}
     proc = sim.proc("W0")
     st = dep.client(proc)
+    hbf = plan.get("hb_fail")
+    if hbf and plan["cfg"].get("heartbeat_interval") and hasattr(st, "_backend") and hasattr(st._backend, "record_heartbeat"):
+        from optuna.exceptions import StorageInternalError
+
+        inner_st = st._backend
+        orig_beat = inner_st.record_heartbeat
+        nbeat = [0]
+
+        def record_heartbeat(trial_id: int) -> None:
+            nbeat[0] += 1
+            if nbeat[0] - 1 == hbf["nth"]:
+                sim.count("fault:heartbeat_write_fails")
+                raise StorageInternalError("injected: connection lost while recording the heartbeat")
+            orig_beat(trial_id)
+
+        inner_st.record_heartbeat = record_heartbeat  # type: ignore[method-assign]
+        dep._closers.append(lambda: inner_st.__dict__.pop("record_heartbeat", None))
 
     def objective(trial: Any) -> Any:
         num = trial.number
